@@ -251,9 +251,35 @@ func floatDivMod(a, b Float) (Float, Float, error) {
 	if b == 0 {
 		return 0, 0, floatDivisionByZero
 	}
-	q := Float(math.Floor(float64(a / b)))
-	r := a - q*b
-	return q, Float(r), nil
+	// As CPython's float_divmod: the remainder comes from fmod, which is exact, and
+	// takes the sign of the divisor; the quotient is the exact quotient of what is left
+	vx, wx := float64(a), float64(b)
+	mod := math.Mod(vx, wx)
+	div := (vx - mod) / wx
+	if mod != 0 {
+		// ensure the remainder has the same sign as the denominator
+		if (wx < 0) != (mod < 0) {
+			mod += wx
+			div -= 1.0
+		}
+	} else {
+		// the remainder is zero, and in the presence of signed zeroes
+		// fmod returns different results across platforms; ensure
+		// it has the same sign as the denominator
+		mod = math.Copysign(0.0, wx)
+	}
+	var floordiv float64
+	if div != 0 {
+		// snap quotient to nearest integral value
+		floordiv = math.Floor(div)
+		if div-floordiv > 0.5 {
+			floordiv += 1.0
+		}
+	} else {
+		// div is zero - get the same sign as the true quotient
+		floordiv = math.Copysign(0.0, vx/wx)
+	}
+	return Float(floordiv), Float(mod), nil
 }
 
 func (a Float) M__mod__(other Object) (Object, error) {
